@@ -159,9 +159,18 @@ CHECKS = {
              "descriptions with that name defined as function / staticmethod / property / value, lazy and eager; the class __dict__ is snapshotted after decoration, bootstrap "
              "and first use, and TLC judges identity preservation of everything the body defined and set equality of the added names.",
         note=TB + "; singular forms are an input table", technique="TLA+ class-dictionary machine (TLC); rendered class variants with __dict__ snapshots judged by TLC", ref="3 C16"),
+    "C17": dict(
+        text="SigOps.tla models Python call binding against a signature (Binds) -- model-checked against a second, constructive formulation over all signatures of <=3 parameters "
+             "and all small calls -- and the nested-attribute keywords a generated method must advertise (init-enabled, non-overflow attributes of the nested spec class: of the "
+             "attribute type for scalar helpers, of the element type for element helpers, of the class itself for the constructor/update/transform; **kwargs iff that class has an "
+             "overflow attribute). For every generated method of four real classes the advertised signature is read with inspect.signature, and calls are made with a spy in place "
+             "of the implementation: minimal call, each advertised parameter, each pair, too many positionals, unadvertised names (other classes' attributes, init=False, "
+             "overflow, private). TLC judges accepted <=> Binds(advertised, call), rejection is TypeError before the behaviour is reached, values and real defaults arrive as "
+             "advertised, nested keywords one-to-one.",
+        note=TB, technique="TLA+ model of call binding (TLC, two formulations) + nested-keyword rule; introspected signatures and spy calls judged by TLC", ref="3 C17"),
 }
 
-PENDING = "check not built yet in this round (see DESIGN.md section 3 for the planned TLA+ module)"
+PENDING = "check not built yet (see DESIGN.md section 3 for the planned TLA+ module)"
 
 
 def build():
